@@ -4,6 +4,7 @@ From PV Require Model.RemoteJob.   (* not exported: its short names (step, run, 
 From PV Require Export Model.LocalJobX.
 From PV Require Export Model.ComponentsX Model.DetectorX.
 From PV Require Export Model.ComponentsX Model.CodecX.
+From PV Require Export Model.PayloadX.
 
 Definition dispatch (f : Z) (x : sx) : sx :=
   match f with
@@ -19,5 +20,6 @@ Definition dispatch (f : Z) (x : sx) : sx :=
   | 800 => x_cond x | 801 => x_detect x | 802 => x_mk_detector x | 803 => x_tree_leaves x
   | 804 => x_detection_type x | 805 => x_check_heralds x | 806 => x_simulate x | 807 => x_closed x
   | 1500 => x_sf x | 1501 => x_codec x
+  | 1600 => x_scenario x | 1601 => x_handle_params x
   | _ => L []
   end%Z.
